@@ -175,6 +175,13 @@ impl Record {
         let start =
             u64::try_from(start).map_err(|e| io::Error::new(io::ErrorKind::InvalidInput, e))?;
 
+        if start > self.length {
+            return Err(io::Error::new(
+                io::ErrorKind::InvalidInput,
+                "start position is beyond the end of the sequence",
+            ));
+        }
+
         let line_base_count = self.line_base_count.get();
         let line_width = self.line_width.get();
         let pos = self.position() + start / line_base_count * line_width + start % line_base_count;
